@@ -86,7 +86,6 @@ pub fn ctx1(i: u8) -> ScancodeSet1 {
 }
 
 /// Frame decoder after `k` (<= 10) symbolic bits from `new()`: every partial-frame state.
-/// Callers need `#[kani::unwind(300)]`.
 pub fn partial(k: u8) -> Ps2Decoder {
     let mut d = Ps2Decoder::new();
     let mut i = 0u8;
